@@ -685,6 +685,54 @@ theorem predB_unwrapped_agrees (hA : adequate L = true) (X : Target) {a : Ann} (
   rw [unwrap_strips L hA hl, hk]
   exact predB_agrees_class L X hc ho hg
 
+
+/-- The nine direct predicates, one by one: on a plain class, and after `unwrap` over any legal nest of wrappers. -/
+theorem isenumtype_agrees {i : Nat} (hc : L.isClass i = true) (ho : L.getOrigin i = none) (hg : L.gtmGet i = none) :
+    some (isenumtypeM L (.base i)) = specSub L .enum (.base i) := predB_agrees_class L .enum hc ho hg
+theorem isenumtype_unwrapped_agrees (hA : adequate L = true) {a : Ann} (hl : legal L a = true) {i : Nat}
+    (hk : core L a = .base i) (hc : L.isClass i = true) (ho : L.getOrigin i = none) (hg : L.gtmGet i = none) :
+    (unwrapM L a).map (isenumtypeM L) = specSub L .enum (core L a) := predB_unwrapped_agrees L hA .enum hl hk hc ho hg
+theorem istexttype_agrees {i : Nat} (hc : L.isClass i = true) (ho : L.getOrigin i = none) (hg : L.gtmGet i = none) :
+    some (istexttypeM L (.base i)) = specSub L .text (.base i) := predB_agrees_class L .text hc ho hg
+theorem istexttype_unwrapped_agrees (hA : adequate L = true) {a : Ann} (hl : legal L a = true) {i : Nat}
+    (hk : core L a = .base i) (hc : L.isClass i = true) (ho : L.getOrigin i = none) (hg : L.gtmGet i = none) :
+    (unwrapM L a).map (istexttypeM L) = specSub L .text (core L a) := predB_unwrapped_agrees L hA .text hl hk hc ho hg
+theorem isstringtype_agrees {i : Nat} (hc : L.isClass i = true) (ho : L.getOrigin i = none) (hg : L.gtmGet i = none) :
+    some (isstringtypeM L (.base i)) = specSub L .str (.base i) := predB_agrees_class L .str hc ho hg
+theorem isstringtype_unwrapped_agrees (hA : adequate L = true) {a : Ann} (hl : legal L a = true) {i : Nat}
+    (hk : core L a = .base i) (hc : L.isClass i = true) (ho : L.getOrigin i = none) (hg : L.gtmGet i = none) :
+    (unwrapM L a).map (isstringtypeM L) = specSub L .str (core L a) := predB_unwrapped_agrees L hA .str hl hk hc ho hg
+theorem isbytestype_agrees {i : Nat} (hc : L.isClass i = true) (ho : L.getOrigin i = none) (hg : L.gtmGet i = none) :
+    some (isbytestypeM L (.base i)) = specSub L .bytes (.base i) := predB_agrees_class L .bytes hc ho hg
+theorem isbytestype_unwrapped_agrees (hA : adequate L = true) {a : Ann} (hl : legal L a = true) {i : Nat}
+    (hk : core L a = .base i) (hc : L.isClass i = true) (ho : L.getOrigin i = none) (hg : L.gtmGet i = none) :
+    (unwrapM L a).map (isbytestypeM L) = specSub L .bytes (core L a) := predB_unwrapped_agrees L hA .bytes hl hk hc ho hg
+theorem isnumbertype_agrees {i : Nat} (hc : L.isClass i = true) (ho : L.getOrigin i = none) (hg : L.gtmGet i = none) :
+    some (isnumbertypeM L (.base i)) = specSub L .number (.base i) := predB_agrees_class L .number hc ho hg
+theorem isnumbertype_unwrapped_agrees (hA : adequate L = true) {a : Ann} (hl : legal L a = true) {i : Nat}
+    (hk : core L a = .base i) (hc : L.isClass i = true) (ho : L.getOrigin i = none) (hg : L.gtmGet i = none) :
+    (unwrapM L a).map (isnumbertypeM L) = specSub L .number (core L a) := predB_unwrapped_agrees L hA .number hl hk hc ho hg
+theorem isintegertype_agrees {i : Nat} (hc : L.isClass i = true) (ho : L.getOrigin i = none) (hg : L.gtmGet i = none) :
+    some (isintegertypeM L (.base i)) = specSub L .int (.base i) := predB_agrees_class L .int hc ho hg
+theorem isintegertype_unwrapped_agrees (hA : adequate L = true) {a : Ann} (hl : legal L a = true) {i : Nat}
+    (hk : core L a = .base i) (hc : L.isClass i = true) (ho : L.getOrigin i = none) (hg : L.gtmGet i = none) :
+    (unwrapM L a).map (isintegertypeM L) = specSub L .int (core L a) := predB_unwrapped_agrees L hA .int hl hk hc ho hg
+theorem isfloattype_agrees {i : Nat} (hc : L.isClass i = true) (ho : L.getOrigin i = none) (hg : L.gtmGet i = none) :
+    some (isfloattypeM L (.base i)) = specSub L .float (.base i) := predB_agrees_class L .float hc ho hg
+theorem isfloattype_unwrapped_agrees (hA : adequate L = true) {a : Ann} (hl : legal L a = true) {i : Nat}
+    (hk : core L a = .base i) (hc : L.isClass i = true) (ho : L.getOrigin i = none) (hg : L.gtmGet i = none) :
+    (unwrapM L a).map (isfloattypeM L) = specSub L .float (core L a) := predB_unwrapped_agrees L hA .float hl hk hc ho hg
+theorem ispatterntype_agrees {i : Nat} (hc : L.isClass i = true) (ho : L.getOrigin i = none) (hg : L.gtmGet i = none) :
+    some (ispatterntypeM L (.base i)) = specSub L .pattern (.base i) := predB_agrees_class L .pattern hc ho hg
+theorem ispatterntype_unwrapped_agrees (hA : adequate L = true) {a : Ann} (hl : legal L a = true) {i : Nat}
+    (hk : core L a = .base i) (hc : L.isClass i = true) (ho : L.getOrigin i = none) (hg : L.gtmGet i = none) :
+    (unwrapM L a).map (ispatterntypeM L) = specSub L .pattern (core L a) := predB_unwrapped_agrees L hA .pattern hl hk hc ho hg
+theorem ispathtype_agrees {i : Nat} (hc : L.isClass i = true) (ho : L.getOrigin i = none) (hg : L.gtmGet i = none) :
+    some (ispathtypeM L (.base i)) = specSub L .purepath (.base i) := predB_agrees_class L .purepath hc ho hg
+theorem ispathtype_unwrapped_agrees (hA : adequate L = true) {a : Ann} (hl : legal L a = true) {i : Nat}
+    (hk : core L a = .base i) (hc : L.isClass i = true) (ho : L.getOrigin i = none) (hg : L.gtmGet i = none) :
+    (unwrapM L a).map (ispathtypeM L) = specSub L .purepath (core L a) := predB_unwrapped_agrees L hA .purepath hl hk hc ho hg
+
 /-- NewType / alias chains only (any interleaving). -/
 def naChain : Ann → Bool
   | .newtype a => naChain a
@@ -1142,6 +1190,11 @@ theorem isforwardref_spec (a : Ann) : isforwardrefM a = true ↔ ∃ l b, a = .f
   cases a <;> simp [isforwardrefM, Ann.isFref]
 
 /-- `isunresolvable` of a class-valued annotation: the object itself or the class it resolves to is in `_UNRESOLVABLE`. -/
+theorem inUnresolvable_erase (a : Ann) : inUnresolvable L (erase L a) = inUnresolvable L a := by
+  cases a with
+  | union sp ms => cases sp <;> simp [erase, inUnresolvable]
+  | _ => simp [erase, inUnresolvable]
+
 theorem isunresolvable_resolved (hA : adequate L = true) {a : Ann} (hd : directOk a = true) {c : Nat}
     (hr : ResolvesTo L a c) : isunresolvableM L a = (inUnresolvable L a || L.flag (·.unresolvable) c) := by
   unfold isunresolvableM; rw [originM_resolved L hA hd hr]; rfl
@@ -1228,6 +1281,11 @@ theorem isfixedtupletype_spec (hA : adequate L = true) {a : Ann} (hp : plainOk L
 
 
 /-! ## 11. Spelling invariance of the special-form predicates -/
+
+theorem isunresolvable_spelling_invariant (hA : adequate L = true) {a : Ann} (hd : directOk a = true) {c : Nat}
+    (hr : ResolvesTo L a c) : isunresolvableM L (erase L a) = isunresolvableM L a := by
+  unfold isunresolvableM
+  rw [originM_erase L hA hd hr, inUnresolvable_erase]
 
 theorem eraseList_eq_map (as : List Ann) : eraseList L as = as.map (erase L) := by
   induction as with
